@@ -26,7 +26,7 @@ type seqKey struct {
 func (m *Model) seqs() map[seqKey][]*Notif {
 	out := map[seqKey][]*Notif{}
 	for _, n := range m.H.Notifs {
-		if n.Inst != m.Name {
+		if !m.mine(n) {
 			continue
 		}
 		k := seqKey{n.Receiver, n.Integ, n.GroupKey}
